@@ -6,7 +6,7 @@
 pub mod allocator {
     pub use crate::util::alloc::allocator::{
         align_allocation, align_allocation_inner, align_allocation_no_fill,
-        get_maximum_aligned_size, get_maximum_aligned_size_inner,
+        get_maximum_aligned_size, get_maximum_aligned_size_inner, AllocatorContext,
     };
 }
 
@@ -35,6 +35,7 @@ pub mod rust_util {
 pub mod policy {
     pub use crate::policy::marksweepspace::native_ms::mi_bin;
     pub use crate::policy::sft_map::{SFTMap, SFTSpaceMap};
+    pub use crate::policy::space::Space;
     /// Compressor forwarding metadata.
     pub mod compressor {
         pub use crate::policy::compressor::forwarding::verif::*;
